@@ -1,4 +1,5 @@
 import Proofs.EngineStruct
+import Proofs.EngineStack
 import SynapModel.Api
 /-!
 # C17 — Backward scales to deep graphs and untracked computations keep no history (logical core)
@@ -42,6 +43,15 @@ theorem backward_completes (ns : Graph G) (hw : WFG ns) (hb : BacksTotal ns) (hq
     (root : Nat) (r : Node G) (hr : ns[root]? = some r) (hrg : r.reqGrad = true) (g : G) (retainAll : Bool) :
     ∃ res, backward ns root g retainAll = some res :=
   backward_succeeds ns hw hb hq root r hr hrg g retainAll
+
+/-- **The code's traversal is an explicit-stack loop, not a recursion, and it is linear**: the step-by-step model of
+    the `while stack:` loop of `Tensor.backward`, given `stackFuel ns = (number of operand edges) + (number of nodes) + 1`
+    turns, reaches exactly the state of the recursive traversal — so no Python recursion depth is involved at any graph
+    depth, and the work of the traversal phase is bounded by edges + nodes. -/
+theorem loop_is_iterative_and_linear (ns : Graph G) (hw : WFG ns) (root : Nat) (hr : root < ns.length) :
+    runStack (stackFuel ns) ⟨[root], [], ns, []⟩ [⟨root, childrenOf ns root⟩] = traverse ns root ∧
+    stackFuel ns = (ns.map (fun n => n.children.length + 1)).sum + 1 :=
+  ⟨Proofs.EngineStack.traverseStack_eq_traverse ns hw root hr, rfl⟩
 
 section Api
 open Synap Synap.Api
